@@ -207,7 +207,7 @@ def checkStmt (env : SEnv) : Stmt → Option SEnv
     (match env.ret with
      | some rt => (typeOf env e).bind fun te => if rt != .nichts && returnable rt te then some env else none
      | none => none)
-  | .expr e => (match e with | .call _ _ => (typeOf env e).map fun _ => env | _ => none)
+  | .expr e => (typeOf env e).map fun _ => env     -- any well-typed expression is a statement (`parser.expressionStatement`)
   | .print e _ => (typeOf env e).bind fun te => if te.isPrim || (te.isList && te.elem.isPrim) then some env else none
   | .todo => some env
 def checkBlock (env : SEnv) : List Stmt → Option SEnv
